@@ -1,10 +1,13 @@
 import RoaringModel.Serde
+import RoaringModel.Props.C05
+import RoaringModel.Inv
 /-!
 # C19 — serde representation is the standard byte format and round-trips (property theorems)
 
 The Lean content is thin because the property's logic is thin (DESIGN §8 C19): the serializer is handed
 one byte string, the visitor runs the checked decoder on whatever byte string it is handed.  The codec
-round trip itself is property C05; it enters here as a hypothesis *about the value at hand*.
+round trip itself is property C05 (`C05_decode`, unconditional for well-formed values); with it the round
+trip through the visitor is unconditional: `C19_visit_roundtrip`, `C19_rt`, `C19_roundtrip`.
 -/
 namespace Roaring.C19
 open Roaring Roaring.Serde
@@ -38,15 +41,16 @@ def Input.payload : Input → List Nat
   | .byteBuf bs => bs
   | .seq els => els
 
-/-- Full statement (both delivery forms, for every value): `visit ∘ serialize = ok`. -/
+/-- Full statement (every delivery form, for every well-formed value): `visit ∘ serialize = ok`.
+    Proved below as `C19_roundtrip`. -/
 def C19_roundtrip_statement (dbg : Bool) : Prop :=
-  ∀ (b : Bitmap) (inp : Input), Input.payload inp = Bitmap.serialize b → visit dbg inp = .ok b
+  ∀ (b : Bitmap), Bitmap.WF b → ∀ (inp : Input), Input.payload inp = Bitmap.serialize b → visit dbg inp = .ok b
 
 /-- Round trip through the visitor, as a corollary of the codec round trip (C05) for the value at hand:
     if the checked decoder reads `serialize b` back as `b` (whatever it leaves unread), then delivering
     `serialize b` as bytes, borrowed bytes, a byte buffer or a sequence of `u8` yields `b`.
     Missing for the full statement: the hypothesis `hC05` for every well-formed `b` (codec family). -/
-theorem C19_visit_roundtrip_partial (dbg : Bool) (b : Bitmap) (rest : List Nat)
+theorem C19_visit_roundtrip_of_decode (dbg : Bool) (b : Bitmap) (rest : List Nat)
     (hC05 : deserialize true dbg (Bitmap.serialize b) = .ok (b, rest))
     (inp : Input) (hinp : Input.payload inp = Bitmap.serialize b) : visit dbg inp = .ok b := by
   have hb : visit dbg (.bytes (Bitmap.serialize b)) = .ok b := by
@@ -61,14 +65,70 @@ theorem C19_visit_roundtrip_partial (dbg : Bool) (b : Bitmap) (rest : List Nat)
 
 /-- What a format round trip amounts to in the model: the single emitted event, handed back to the
     visitor as a byte string (postcard) or as a sequence (JSON), yields the original value. -/
-theorem C19_rt_partial (dbg : Bool) (b : Bitmap) (rest : List Nat)
+theorem C19_rt_of_decode (dbg : Bool) (b : Bitmap) (rest : List Nat)
     (hC05 : deserialize true dbg (Bitmap.serialize b) = .ok (b, rest)) :
     (match serEvents b with
      | [Event.bytes bs] => visit dbg (.bytes bs) = .ok b ∧ visit dbg (.seq bs) = .ok b
      | _ => False) := by
   simp only [C19_events]
-  exact ⟨C19_visit_roundtrip_partial dbg b rest hC05 (.bytes _) rfl,
-         C19_visit_roundtrip_partial dbg b rest hC05 (.seq _) rfl⟩
+  exact ⟨C19_visit_roundtrip_of_decode dbg b rest hC05 (.bytes _) rfl,
+         C19_visit_roundtrip_of_decode dbg b rest hC05 (.seq _) rfl⟩
+
+/-! ### unconditional: the codec round trip is `C05_decode` -/
+
+/-- the codec family's local well-formedness predicate (Lemmas/CodecWF.lean) is the shared `Bitmap.WF` -/
+theorem codecWF_iff (b : Bitmap) : Roaring.BitmapWF b ↔ Bitmap.WF b := by
+  have hW : W = 2 ^ 64 := by decide
+  have hs : ∀ s : Store, Roaring.StoreWF s ↔ s.WF := by
+    intro s
+    cases s with
+    | array v =>
+      simp only [Roaring.StoreWF, Store.WF, Arr.Inv, Roaring.Sorted]
+      constructor
+      · rintro ⟨h1, h2, h3, h4⟩; exact ⟨⟨h1, h2⟩, h3, h4⟩
+      · rintro ⟨⟨h1, h2⟩, h3, h4⟩; exact ⟨h1, h2, h3, h4⟩
+    | bitmap bs =>
+      simp only [Roaring.StoreWF, Store.WF, hW]
+      constructor
+      · rintro ⟨h1, h2, h3, h4⟩; exact ⟨⟨h1, h2, h3⟩, h4⟩
+      · rintro ⟨⟨h1, h2, h3⟩, h4⟩; exact ⟨h1, h2, h3, h4⟩
+  unfold Roaring.BitmapWF Bitmap.WF Container.WF
+  constructor
+  · rintro ⟨h1, h2⟩; exact ⟨h1, fun c hc => ⟨(h2 c hc).1, (hs _).1 (h2 c hc).2⟩⟩
+  · rintro ⟨h1, h2⟩; exact ⟨h1, fun c hc => ⟨(h2 c hc).1, (hs _).2 (h2 c hc).2⟩⟩
+
+/-- the checked decoder reads the serialisation of a well-formed value back as that value (C05) -/
+theorem C19_decode (dbg : Bool) (b : Bitmap) (h : Bitmap.WF b) :
+    deserialize true dbg (Bitmap.serialize b) = .ok (b, []) := by
+  have := C05.C05_decode true dbg b ((codecWF_iff b).2 h) []
+  simpa using this
+
+/-- **Round trip through the visitor** for every well-formed value and every way a `Deserializer` can deliver
+    the byte string (bytes, borrowed bytes, byte buffer, sequence of `u8`), in both build configurations. -/
+theorem C19_visit_roundtrip (dbg : Bool) (b : Bitmap) (h : Bitmap.WF b)
+    (inp : Input) (hinp : Input.payload inp = Bitmap.serialize b) : visit dbg inp = .ok b :=
+  C19_visit_roundtrip_of_decode dbg b [] (C19_decode dbg b h) inp hinp
+
+/-- the full statement holds -/
+theorem C19_roundtrip (dbg : Bool) : C19_roundtrip_statement dbg :=
+  fun b h inp hinp => C19_visit_roundtrip dbg b h inp hinp
+
+/-- **Format round trip**: the single emitted event, handed back to the visitor as a byte string (postcard)
+    or as a sequence (JSON), yields the original value. -/
+theorem C19_rt (dbg : Bool) (b : Bitmap) (h : Bitmap.WF b) :
+    (match serEvents b with
+     | [Event.bytes bs] => visit dbg (.bytes bs) = .ok b ∧ visit dbg (.seq bs) = .ok b
+     | _ => False) :=
+  C19_rt_of_decode dbg b [] (C19_decode dbg b h)
+
+/-- The serde byte string IS the standard serialisation: what the visitor accepts from `serialize` is the value,
+    and a value deserialised from the emitted event re-serialises to the same event (idempotence). -/
+theorem C19_reserialize (dbg : Bool) (b : Bitmap) (h : Bitmap.WF b) :
+    ∀ bs, serEvents b = [Event.bytes bs] → ∃ b', visit dbg (.bytes bs) = .ok b' ∧ serEvents b' = serEvents b := by
+  intro bs hbs
+  rw [C19_events] at hbs
+  cases hbs
+  exact ⟨b, C19_visit_roundtrip dbg b h (.bytes _) rfl, rfl⟩
 
 /-- decidable equality of `Except` values (for the concrete example below) -/
 local instance {ε α} [DecidableEq ε] [DecidableEq α] : DecidableEq (Except ε α) := fun a b =>
